@@ -46,7 +46,7 @@ KEY = "unsplit_node_id"
 
 def budget(tier):
     if tier == "quick":
-        return dict(examples=600, shards=4)
+        return dict(examples=600, shards=4, time_s=2400)  # time_s: only a guard for overloaded machines
     return dict(examples=3000, shards=16)
 
 
